@@ -19,7 +19,7 @@ def gsq(v):
     return 1.0 / (1.0 - v * v)
 
 
-def eos_families(tier: str, seed_tag="eos"):
+def eos_families(tier: str, seed_tag="eos", negative_eps=False):
     """[(name, thermo-like object)]  -- bag, template (mu != nu), traced toy potentials."""
     import models
     r = C.rng(seed_tag)
@@ -49,6 +49,15 @@ def eos_families(tier: str, seed_tag="eos"):
     # polynomial two-step EOS (temperature-dependent sound speeds in both phases)
     for Tn in ((0.6,) if tier == "quick" else (0.5, 0.6, 0.7, 0.9)):
         fams.append((f"twostep:abrok=0.2,asym=0.1,musq=0.4,Tn={Tn}", models.twostep_eos(Tn=Tn)))
+    # template EOS whose broken phase has the LARGER sound speed and a weak transition: the vacuum-energy parameter of the template fit
+    # is negative (WallGoManager refuses such points, Hydrodynamics itself does not), yet it is an ordinary direct transition
+    # Only on request (C05): WallGoManager rejects these inputs, and near vJ the general matching does not converge for them (observation in DESIGN.md).
+    for al, psi, cb2, cs2, Tn in (((0.0646, 0.821, 0.326, 0.227, 1.0),) + (((0.0212, 0.953, 0.294, 0.237, 1.0), (0.03, 0.95, 0.32, 0.25, 100.0)) if tier == "thorough" else ())) if negative_eps else ():
+        fams.append((f"template-negative-eps:alN={al},psiN={psi},cb2={cb2},cs2={cs2},Tn={Tn}", models.template_from(al, psi, cb2, cs2, Tn)))
+    # the same equations of state with a tabulated range that ends just above Tn: slow detonations heat the plasma behind the
+    # wall beyond it (T- > TMaxLowT); the exact matching still exists (extrapolated EOS) and must be the one returned
+    fams.append(("twostep:abrok=0.2,asym=0.1,musq=0.4,Tn=0.6,Tmax=0.70", models.twostep_eos(Tn=0.6, Tmax=0.70)))
+    fams.append(("template-range-limited:ap=3,am=2.4,eps=0.2,Tn=1,TmaxP=1.15", models.BagEOS(ap=3.0, am=2.4, eps=0.2, Tn=1.0, TmaxP=1.15)))
     # numerically traced potentials (real Thermodynamics class)
     th2c, _m2, _i2 = models.make_thermo("toy2c", {}, TnFrac=0.6, tminFrac=0.5, tmaxFrac=1.12)
     fams.append(("toy2c(two-step, traced):TnFrac=0.6", th2c))
